@@ -52,6 +52,8 @@ def seq_extra(merged):
             if isinstance(v, list):
                 old = probes.get(k, [0] * len(v))
                 probes[k] = [a + b for a, b in zip(old, v)]
+            elif isinstance(v, dict):
+                probes[k] = v
             else:
                 probes[k] = max(probes.get(k, 0), v) if k.startswith('max_') else probes.get(k, 0) + v
         for k, v in m.get('faults', {}).items():
@@ -67,6 +69,11 @@ def seq_prop(engine, stages, technique, level_text, level_note, rule, level='exp
 
 def st(name, binary, mode, quick, thorough, tq=90, tt=900):
     return {'name': name, 'bin': binary, 'mode': mode, 'runs': {'quick': quick, 'thorough': thorough}, 'time': {'quick': tq, 'thorough': tt}}
+
+
+def _cfg_stage(prop, st, tier, base, od, tmpdir, repo):
+    import cfg
+    return cfg.stage(prop, st, tier, base, od, tmpdir, repo)
 
 
 PROPS = {
@@ -147,6 +154,13 @@ PROPS = {
         'Enumeration is exhaustive per generated history (every k), histories are sampled by seed. Trusted: the replaced operator new covers every allocation of the binary; faults are armed only for the duration of library calls.',
         'Each evaluation is one seeded plan of 4-12 operations together with ALL its single-fault re-executions (evaluations counts plans; executions_including_fault_reruns counts every execution). Non-trivial = contains an invocation / processing call; distinct = distinct plan hashes.',
         level='fault_enumeration'),
+    'C20': seq_prop('cfg', [
+            st('c20-policies-list', 'seq_list', 'c20', 20000, 400000), st('c20-policies-queue', 'seq_queue', 'c20', 20000, 400000),
+            {'name': 'c20-build-matrix', 'bin': 'seq_list', 'bins': ['seq_queue', 'seq_disp'], 'mode': 'c20', 'custom': _cfg_stage, 'runs': {'quick': 1500, 'thorough': 20000}}],
+        'differential replay: the same seeded plans executed under the Threading x Map x Callback policy variants and three object-storage fill patterns inside one binary, and under a compiler x language-standard x optimisation build matrix; the event-log hashes (every result, trace and argument value) must agree with each other and with the model',
+        'Stage 1-2: every plan (C01/C10-style list and dispatcher histories with copy/move/swap; C05/C10-style queue histories) is executed under 9 list/dispatcher policy variants (Single / Multiple / SpinLock / SimMutex threading, std::map / std::unordered_map, std::function / custom callback storage) resp. 3 queue variants, each with three storage fill patterns (random, 0xFF, 0x00): 27 resp. 9 executions per plan whose event logs must be identical. Stage 3: the plans (plus the C04 dispatcher matrix, which covers ArgumentPassingMode and key kinds) are written to a file and replayed by builds made with g++ 12 and clang++ 14 at -std=c++11/14/17/20 and -O0/-O2 (4 builds for quick, all 16 for thorough) plus the sanitizer reference build; the per-plan log hashes of all builds must be equal.',
+        'This is differential replay, not schedule search: the simulator\'s own determinism gate ("one seed, one execution") turned into the oracle across configurations; the only injected fault is the dirty storage. Only the two compilers and the one standard library installed here can be sampled.',
+        'Each evaluation is one plan; executions_including_fault_reruns counts every (plan, policy variant, fill pattern, build) execution. Non-trivial = the plan contains an invocation / processing call / dispatch; distinct = distinct plans.'),
     'C03': {
         'engine': 'con_list',
         'level': 'exploration',
